@@ -204,7 +204,15 @@ func c06(c *ctx) {
 			}
 		})
 		r.Check(okFirst, "R4/written-hash", c.p.Pos(indexedTxHashes.Pos()), "primary index hash = StringToBytes(result.TxHash)", "indexedTxHashes no longer derives the primary hash from result.TxHash")
-		r.Check(len(callsIn(indexTx, false, indexedTxHashes)) == 1 && len(callsIn(indexTx, false, indexTxByHash)) >= 2, "R4/IndexTx/all-hashes", c.p.Pos(indexTx.Pos()), "IndexTx indexes the primary hash and every alias", "IndexTx no longer indexes every hash returned by indexedTxHashes")
+		// either the primary hash and then a loop over the aliases (two call sites), or one loop over the whole list: the
+		// single call site then takes an element selected by a loop variable
+		idxCalls := callsIn(indexTx, false, indexTxByHash)
+		allInOneLoop := false
+		if len(idxCalls) == 1 {
+			hp := c.p.path(argOf(idxCalls[0], 0))
+			allInOneLoop = strings.Contains(hp, "indexedTxHashes(") && strings.Contains(hp, "loopvar")
+		}
+		r.Check(len(callsIn(indexTx, false, indexedTxHashes)) == 1 && (len(idxCalls) >= 2 || allInOneLoop), "R4/IndexTx/all-hashes", c.p.Pos(indexTx.Pos()), "IndexTx indexes the primary hash and every alias", "IndexTx no longer indexes every hash returned by indexedTxHashes")
 		// eth alias: both sides decode tx.Signature.Signature with UnmarshalBinary and take Hash()
 		for _, f := range []*ssa.Function{ethTxHash, ethFromRaw} {
 			hasUB, hasHash := false, false
